@@ -714,7 +714,7 @@ class Run:
                 arr = np.asfortranarray([float(v) for v in c])
                 res.count(("sigma", cs["coeffs"], cs["value"]), nontrivial=any(c), sec="sigma", degree=max(n, 0))
                 has, msc, mdeg, meff = replies[i1][1]
-                sc, deg, eff = A._get_sigma_coeffs(arr.copy())
+                sc, deg, eff = guarded(res, "_get_sigma_coeffs", A._get_sigma_coeffs, arr, cs)
                 # spec: effective degree, ratios of binomials
                 e = max([k for k in range(n + 1) if c[k] != 0], default=None)
                 if e is None:
@@ -743,7 +743,7 @@ class Run:
                                         (cs["coeffs"], k, float(got), float(spec[0][k])), cs)
                             break
                 # bernstein_companion: structure exactly, first row = -sigma reversed
-                comp, d2, e2 = A.bernstein_companion(arr.copy())
+                comp, d2, e2 = guarded(res, "bernstein_companion", A.bernstein_companion, arr, cs)
                 mcomp, mdeg2, meff2 = replies[i2][1]
                 comp = np.asarray(comp)
                 if (d2, e2) != (int(mdeg2), int(meff2)) or comp.shape != (int(meff2), int(meff2)):
@@ -881,7 +881,7 @@ class Run:
         for cs in cases:
             b = [_fr(v) for v in cs["bern"]]
             arr = np.asfortranarray([float(v) for v in b])
-            comp, deg, eff = A.bernstein_companion(arr.copy())
+            comp, deg, eff = guarded(res, "bernstein_companion", A.bernstein_companion, arr, cs)
             eig = np.linalg.eigvals(comp) if eff else np.empty((0,))
             eigp = [[Fr(float(np.real(z))), Fr(float(np.imag(z)))] for z in eig if np.isfinite(z)]
             idx = drv.ask("alg_bezierroots", self.par, eigp, b)
@@ -893,7 +893,7 @@ class Run:
                 roots = [(Fr(a), Fr(bb), int(m), cl) for a, bb, m, cl in cs["roots"]]
                 classes = sorted({cl for _, _, _, cl in roots}) or ["constant"]
                 res.count(("roots", cs["bern"]), nontrivial=(n >= 1), sec="roots", degree=n, classes="+".join(classes))
-                out = np.atleast_1d(np.asarray(A.bezier_roots(arr.copy())))
+                out = np.atleast_1d(np.asarray(guarded(res, "bezier_roots", A.bezier_roots, arr, cs)))
                 got = [(float(np.real(z)), float(np.imag(z))) for z in out]
                 res.sample({"sec": "roots", "degree": n, "classes": classes, "returned": len(got)})
                 # ---- correspondence of the filter / transformation given the same eigenvalues
@@ -1256,6 +1256,17 @@ def _fr(v):
     if isinstance(v, str) and v.startswith(("0x", "-0x")):
         return Fr(float.fromhex(v))
     return Fr(v)
+
+
+def guarded(res, name, fn, arr, rc):
+    """call fn on the caller's float64 coefficient array and check that the array still holds the given polynomial afterwards
+    (a root finder that rewrites its argument answers a later query - or the caller's own check of the roots - for another
+    polynomial)"""
+    work = np.array(arr, dtype=np.float64, copy=True)
+    out = fn(work)
+    if work.shape != np.shape(arr) or not np.array_equal(work, np.asarray(arr, dtype=np.float64), equal_nan=True):
+        res.failure("input-mutated:" + name, "%s changed its coefficient argument from %s to %s" % (name, np.asarray(arr).tolist(), work.tolist()), rc)
+    return out
 
 
 def main():
